@@ -91,12 +91,6 @@ end
 
 /-! ## decoder -/
 
-structure Cfg where
-  /-- wire lengths and counts are checked against `decoder.remain` (and negative sizes rejected) before
-  anything is allocated -/
-  bounded : Bool
-  deriving Repr, BEq, Inhabited
-
 /-- decoder state: the bytes still in the stream and `decoder.remain` -/
 structure Dec where
   inp : Bytes
@@ -116,6 +110,15 @@ inductive Res (α : Type) where
   | .error => .error
   | .panic => .panic
   | .balloon => .balloon
+
+structure Cfg where
+  /-- wire lengths and counts are checked against `decoder.remain` (and negative sizes rejected) before
+  anything is allocated -/
+  bounded : Bool
+  /-- how a `protocol.RecordSet` field is read: `none` = the value-level view used by C04 (size prefix, then the
+  payload as an opaque blob); `some h` = a detailed reader of the record-set inside (Model/RecordScan.lean,
+  used by C20) -/
+  recs : Option (Dec → Res Val) := none
 
 /-- `readFull(d.buffer[:k])` for a fixed `k > 0` -/
 def readN (k : Nat) (d : Dec) : Res Bytes :=
@@ -241,9 +244,12 @@ def decode (cfg : Cfg) : Ty → Dec → Res Val
   | .records, d =>
     -- RecordSet.ReadFrom: size := d.readInt32(); size <= 0 → empty set; else the next `size` bytes are the
     -- batches (their inside is property C05's; here an opaque payload)
-    (readInt 4 d).bind fun n d =>
-      if n ≤ 0 then .ok (.records none) d
-      else (readLen cfg n d).bind fun bs d => .ok (.records (some bs)) d
+    match cfg.recs with
+    | some h => h d
+    | none =>
+      (readInt 4 d).bind fun n d =>
+        if n ≤ 0 then .ok (.records none) d
+        else (readLen cfg n d).bind fun bs d => .ok (.records (some bs)) d
 def decodeFields (cfg : Cfg) : List Ty → Dec → Res (List Val)
   | [], d => .ok [] d
   | t :: ts, d => (decode cfg t d).bind fun v d => (decodeFields cfg ts d).bind fun vs d => .ok (v :: vs) d
